@@ -182,7 +182,7 @@ def run_c16(ctx):
 
 
 SHELL_ASSUME = [
-    'handlers are abstracted as arbitrary interaction-tree programs; the side conditions of the generic theorems (AllAimed, NoVset, EnvFree, GasBlind, VolDerived) are discharged for the real code by the regenerated fact tables (T3, `decide`) where a static fact exists, and otherwise exercised dynamically by the twin-replica engines',
+    'handlers are abstracted as arbitrary interaction-tree programs; the side conditions of the generic theorems (AllAimed, NoVset, EnvFree, RoomBlind, VolDerived) are discharged for the real code by the regenerated fact tables (T3, `decide`) where a static fact exists, and otherwise exercised dynamically by the twin-replica engines',
     'the shell model is tied to app/controller.go by the `shell` engine: every ABCI call of generated histories (with CheckTx calls and restarts mixed in) is re-run by the Lean model with handlers abstracted to their observed writes; block-cache digests, results, index short-circuits, commit write logs (replayed into IAVL against the real application hash) and Info after restarts must agree',
     'ABCI calls are serialised (Tendermint local client mutex); goroutine interleavings inside one call do not occur on the modelled paths',
 ]
@@ -220,9 +220,9 @@ PROPS = {
         model_limits='the theorem for arbitrary re-encodings keeps `_partial`: it is stated under `Canonical` (byte strings the handlers cannot tell apart have the same hash), which the code establishes by two means outside the shell model — the canonical-encoding guard of both entry points (T3 fact `canonical_guard_present`) and one spelling per key and per signature in the key handlers (ED25519: Go rejects s >= L; SECP256K1: fixed length and low-s rule of Tendermint; BTCEC: compressed key only and low-s DER without trailing bytes since d4987f9 / 9dae7fc) — both exercised by the replay engine (re-encoding classes 0-10 over originals signed with the three algorithms); OLVM transactions additionally rely on the account nonce (only `stNonce > msgNonce` is rejected, S12)'),
     'C06': dict(
         lean_modules=['OLP.Props.C06', 'OLP.Props.C06Facts'], namespaces=['OLP.Props.C06'],
-        required_theorems=['failed_tx_keeps_store', 'failed_tx_noop', 'remove_failed_deliverAll', 'remove_failed_same_block', 'deliverer_discipline'],
+        required_theorems=['failed_tx_keeps_store', 'failed_tx_noop', 'remove_failed_deliverAll', 'remove_failed_same_block', 'remove_failed_same_block_of_no_hooks', 'remove_failed_instance', 'remove_failed_needs_room', 'failed_tx_starves_later', 'block_room_after_txs', 'deliverer_discipline'],
         run=run_c06, replay=replay_olh('dropfailed'), level='proof', assumptions=SHELL_ASSUME,
-        model_limits='the EVM object cache / journal are volatile cells of the generic model; their rollback on failure is covered by C16/C17 and by the dropfailed twin (fork family)'),
+        model_limits='the removal theorems hold for handlers that read the gas level only in the fee step and relative to its start (`RoomBlind`, proved from syntax for every program without a `.gas` node: `roomShiftInv_of_syntax`; instance `remove_failed_instance`) — at block level under the premise that the meter has room after EndBlock in the full block (`remove_failed_needs_room` shows the premise cannot be dropped in the MODEL, whose EndBlock hooks read the metered deliver state; the code runs them unmetered since 359026c, so the model is the more pessimistic of the two); the EVM object cache / journal are volatile cells of the generic model: their rollback on failure is covered by C16/C17 and by the olvm engine that run_c06 runs with its atomicity monitors'),
     'C07': dict(
         lean_modules=['OLP.Props.C07', 'OLP.Props.C07Facts'], namespaces=['OLP.Props.C07'],
         required_theorems=['checkTx_keeps_store', 'checktx_isolation', 'unaimed_hook_breaks_isolation', 'check_vset_breaks_isolation', 'begin_hooks_aimed', 'end_hooks_aimed', 'checker_discipline', 'check_path_runs_no_finalisation', 'check_path_statedb_uses'],
